@@ -93,7 +93,7 @@ func genUpload(t *rapid.T, withGaps bool) upScript {
 			maxName = 255 // the HLJ chunk header carries a length-prefixed name (the others a fixed 50-byte field)
 		}
 		f := upFile{Name: genName(t, "name", maxName, used), Seed: rapid.Byte().Draw(t, "seed")}
-		cs := rapid.SampledFrom([]int{1, 3, 7, 16, 64, 500, 1024, 4096, 65536}).Draw(t, "chunk")
+		cs := rapid.SampledFrom([]int{1, 3, 7, 16, 64, 500, 1024, 4096, 65536, 100000}).Draw(t, "chunk")
 		switch rapid.IntRange(0, 4).Draw(t, "sizek") {
 		case 0:
 			f.Size = rapid.IntRange(1, 3).Draw(t, "tiny")
@@ -104,8 +104,8 @@ func genUpload(t *rapid.T, withGaps bool) upScript {
 		default:
 			f.Size = rapid.IntRange(1, 3*cs).Draw(t, "size")
 		}
-		if f.Size > 150000 {
-			f.Size = 150000
+		if f.Size > 260000 {
+			f.Size = 260000
 		}
 		if cs < 8 && f.Size > 60 {
 			f.Size = 60
@@ -182,7 +182,7 @@ func genUpload(t *rapid.T, withGaps bool) upScript {
 				sort.Slice(held, func(i, j int) bool { return held[i].off < held[j].off })
 				var runs []chunkRef
 				for _, h := range held {
-					if n := len(runs); n > 0 && runs[n-1].off+runs[n-1].ln == h.off && runs[n-1].ln+h.ln <= 65536 {
+					if n := len(runs); n > 0 && runs[n-1].off+runs[n-1].ln == h.off && runs[n-1].ln+h.ln <= 200000 { // the report names maximal ranges: a terminal may resend one as a single packet
 						runs[n-1].ln += h.ln
 					} else {
 						runs = append(runs, h)
